@@ -318,3 +318,12 @@ Example C38_user_key :
                  Core (Boundary [k])])
   = [[]; []; []; []; []; []; []; []; []; [k]; []; []; []; []; []; []; []].
 Proof. vm_compute. reflexivity. Qed.
+
+(* STOP (or Ctrl-Break) inside an error handler is `Idle`, CONT is `Start`: error_handle_mode and
+   suspend_all are kept, so by C38_not_in_error_handler nothing is entered until RESUME (seed C38c) *)
+Example C38_stop_cont_in_error_handler :
+  let s := setup ++ [ErrorTrap; Idle; Start; Install; Occur k1; Boundary [k1]] in
+  error_handle_mode (run init s) = true /\ suspend_all (run init s) = true /\ run_mode (run init s) = true /\
+  trace init (s ++ [Resume; Install; Boundary [k1]])
+  = [[]; []; []; []; []; []; []; []; []; []; []; []; []; []; [k1]].
+Proof. vm_compute. repeat split. Qed.
